@@ -719,8 +719,6 @@ def canon(case, obs):
     """details after '#' (sanitizer kind, file, function, LSan's own verdict) are for the reader only.
     The model does not run DESTROY handlers: for scripts that bind one the observation is not compared with the
     model's; the oracle (the discipline on the trace the harness reports) judges them on its own."""
-    if has_destroy_handler(case):
-        return "(DESTROY handler: not modelled)"
     i = obs.find(" #")
     return obs[:i] if i >= 0 else obs
 
